@@ -612,14 +612,17 @@ def focusLost (t : Tree) : Nat → Id → Out Tree
     let w ← ofRes (WinTree.get t win)
     if w.isFocused then pure (WinTree.set t win { w with isFocused := false }) else pure t
 
-/-- `_focus_gained(win, child)`. -/
+/-- `_focus_gained(win, child)` (after the focus repairs 7a99ce0: the branch that held the focus is told also when
+    `win` itself takes it, and `win` loses its own focus flag when a descendant takes it). -/
 def focusGained (t : Tree) : Nat → Id → Option Id → Out Tree
   | 0, _, _ => .fuel
   | fuel + 1, win, child => do
     let w ← ofRes (WinTree.get t win)
-    let t ← match w.focusedChild, child with
-      | some fc, some c => if fc ≠ c then focusLost t (chainFuel t) fc else pure t
-      | _, _ => pure t
+    let t ← match w.focusedChild with
+      | some fc => if some fc ≠ child then focusLost t (chainFuel t) fc else pure t
+      | none => pure t
+    let w ← ofRes (WinTree.get t win)
+    let t := if child.isSome && w.isFocused then WinTree.set t win { w with isFocused := false } else t
     let w ← ofRes (WinTree.get t win)
     let t ← match w.parent with
       | some p => if w.isVisible then focusGained t fuel p (some win) else pure t
